@@ -112,6 +112,11 @@ fn script_nontrivial(script: &[Act], more: bool) -> bool {
 }
 
 pub fn run_script(script: &[Act], more: bool, oneway: bool) -> Result<(), Fail> {
+    run_script_spelled(script, more, oneway, false)
+}
+
+/// `spell_false`: flags that are not set are written as an explicit `false` instead of being absent
+pub fn run_script_spelled(script: &[Act], more: bool, oneway: bool, spell_false: bool) -> Result<(), Fail> {
     let iface = Scripted {
         script: Mutex::new(script.to_vec()),
         results: Mutex::new(vec![]),
@@ -137,9 +142,16 @@ pub fn run_script(script: &[Act], more: bool, oneway: bool) -> Result<(), Fail> 
     let mut req = json!({"method": "org.script.Run", "parameters": {}});
     if more {
         req["more"] = json!(true);
+    } else if spell_false {
+        req["more"] = json!(false);
     }
     if oneway {
         req["oneway"] = json!(true);
+    } else if spell_false {
+        req["oneway"] = json!(false);
+    }
+    if spell_false {
+        req["upgrade"] = json!(false);
     }
     let bytes = encode(&req, Style::Compact);
     let run = run_chunks(&service, &[&bytes]);
@@ -278,8 +290,15 @@ fn server_half(ctx: &mut Ctx) {
             ctx.case(if script_nontrivial(s, more) { Some(hash64(&(format!("{:?}", s), more, oneway))) } else { None });
             ctx.class("server:enumerated-script");
             ctx.sample(|| script_json(s, more, oneway));
-            if let Err(f) = pt::guard(|| run_script(s, more, oneway)) {
-                ctx.violation(&f.key, &f.what, "c05-server", script_json(s, more, oneway));
+            for spell_false in [false, true] {
+                if spell_false {
+                    ctx.case(if script_nontrivial(s, more) { Some(hash64(&(format!("{:?}", s), more, oneway, true))) } else { None });
+                }
+                if let Err(f) = pt::guard(|| run_script_spelled(s, more, oneway, spell_false)) {
+                    let mut j = script_json(s, more, oneway);
+                    j["unset_flags_spelled_false"] = json!(spell_false);
+                    ctx.violation(&f.key, &f.what, "c05-server", j);
+                }
             }
         }
     }
@@ -289,16 +308,18 @@ fn server_half(ctx: &mut Ctx) {
         3 => json_value(2).prop_map(Act::Reply),
         1 => ("[a-z]{1,4}\\.[A-Z][a-z]{0,4}", json_value(2)).prop_map(|(n, v)| Act::ReplyErr(n, v)),
     ];
-    let strat = (prop::collection::vec(act, 0..=10), any::<bool>(), prop::bool::weighted(0.2));
+    let strat = (prop::collection::vec(act, 0..=10), any::<bool>(), prop::bool::weighted(0.2), any::<bool>());
     let cases = ctx.tier.pick(20_000, 300_000);
-    let r = pt::check(ctx, "c05-server-random", cases, strat, |ctx, (s, more, oneway)| {
-        ctx.case(if script_nontrivial(s, *more) { Some(hash64(&(format!("{:?}", s), more, oneway))) } else { None });
+    let r = pt::check(ctx, "c05-server-random", cases, strat, |ctx, (s, more, oneway, spell)| {
+        ctx.case(if script_nontrivial(s, *more) { Some(hash64(&(format!("{:?}", s), more, oneway, spell))) } else { None });
         ctx.class("server:random-script");
         ctx.sample(|| script_json(s, *more, *oneway));
-        run_script(s, *more, *oneway)
+        run_script_spelled(s, *more, *oneway, *spell)
     });
-    if let Some(((s, more, oneway), f)) = r {
-        ctx.violation(&f.key, &f.what, "c05-server", script_json(&s, more, oneway));
+    if let Some(((s, more, oneway, spell), f)) = r {
+        let mut j = script_json(&s, more, oneway);
+        j["unset_flags_spelled_false"] = json!(spell);
+        ctx.violation(&f.key, &f.what, "c05-server", j);
     }
 }
 
@@ -419,7 +440,7 @@ fn replay(ctx: &mut Ctx, v: &Value) {
     ctx.force_sample(cj.clone());
     let res = if let Some(s) = cj.get("script").and_then(|s| s.as_array()) {
         let script: Vec<Act> = s.iter().filter_map(act_from).collect();
-        run_script(&script, cj["more"].as_bool().unwrap_or(false), cj["oneway"].as_bool().unwrap_or(false))
+        run_script_spelled(&script, cj["more"].as_bool().unwrap_or(false), cj["oneway"].as_bool().unwrap_or(false), cj["unset_flags_spelled_false"].as_bool().unwrap_or(false))
     } else {
         let arr = |x: &Value| x.as_array().cloned().unwrap_or_default();
         run_client(&ClientCase { conts: arr(&cj["continues_params"]), fin: cj["final"].clone(), follow: arr(&cj["follow_up_finals"]) })
